@@ -54,6 +54,21 @@ CHECKS = {
  "C20": ("proptest+generators", "property-based testing (proptest recipes, shrinking) + decoded generated frames; oracle = serialize/deserialize identity through an own self-describing value model and serde_json::Value",
          "Generated-input exploration over all supported types plus the wire-less variants; exact in-memory data models (no text format).",
          "NaN-carrying messages are outside the property", "§3 C20"),
+ "C10": ("enumerator+sampler", "exhaustive small scopes + random shapes of (S,G,C) with a bit-level standard-layout model as oracle, permutation metamorphic relation, single-defect error-class table",
+         "Generated-input exploration over all 49 MSM types: small scopes enumerated completely, random shapes up to 64 cells; the encoder's frame must equal a frame laid out by an independent model of the standard whatever the input order; each invalid class must give its own error.",
+         "MSM layouts and signal tables pinned in the harness from the standard", "§3 C10"),
+ "C15": ("enumerator", "enumeration of every (type, n<=capacity), every over-capacity count value and every truncation length; oracle = wire count via pinned layout + round-trip equality + Corrupt",
+         "Enumeration, complete over element counts, over-capacity count values and truncation lengths for 39 list/string-bearing types; element contents sampled from decoded vectors.",
+         "count-field layouts pinned in the harness", "§3 C15"),
+ "C16": ("sampler", "typed generation of bias lists (distinct pairs scattered, 1..64 satellites, up to 390 entries, on/off grid) with a multiset/grouping oracle, plus hostile frames with a capacity oracle",
+         "Generated-input exploration of the three hand-written bias list codecs under and outside the stated precondition; bias grid taken from the decoder's image of all patterns.",
+         "SSR signal tables pinned in the harness", "§3 C16"),
+ "C17": ("proptest", "property-based testing (proptest string strategies with shrinking) against reference char/byte mappings, message round trips and 1029 frames with arbitrary text bytes",
+         "Generated-input exploration over Unicode strings clustered around the capacities, util types for several N, all descriptor-bearing messages and 1029.",
+         "reference mapping computed with std primitives", "§3 C17"),
+ "C18": ("enumerator", "exhaustive enumeration of descriptors (7 x 256 bands x 256 Latin-1 attributes) and of all recognised triples against a pinned standard table, wire observation through one-cell MSM1 messages",
+         "Exhaustive over the Latin-1 descriptor space and over all triples of recognised descriptors; other characters and mixed triples sampled.",
+         "signal tables typed from RTCM 10403.3 in the harness", "§3 C18"),
 }
 PENDING = {}
 def load_pending():
